@@ -495,6 +495,9 @@ impl SlabRouter {
             return self.put(key, value);
         }
 
+        #[cfg(feature = "neumann_verif")]
+        verif_durable_window("before log lock");
+
         // Log to WAL first (if configured). The log lock is held until the write has been
         // applied in memory: concurrent durable writes then take effect in log order, so a
         // restart recovers the state readers last saw.
@@ -541,6 +544,9 @@ impl SlabRouter {
         if Self::classify_key(key) == KeyClass::Cache {
             return self.delete(key);
         }
+
+        #[cfg(feature = "neumann_verif")]
+        verif_durable_window("before log lock");
 
         // Log to WAL first (if configured); the log lock is held until the delete has been
         // applied in memory (see `put_durable`).
